@@ -1369,8 +1369,10 @@ func (d *dealer) syncDelCalleeReg(callee *wamp.Session, regID wamp.ID) (bool, er
 	}
 
 	// Remove the callee from the registration.
+	var found bool
 	for i := range reg.callees {
 		if reg.callees[i] == callee {
+			found = true
 			if d.debug {
 				d.log.Printf("Unregistered procedure %v (regID=%v) (callee=%v)",
 					reg.procedure, regID, callee.ID)
@@ -1383,6 +1385,10 @@ func (d *dealer) syncDelCalleeReg(callee *wamp.Session, regID wamp.ID) (bool, er
 			}
 			break
 		}
+	}
+	if !found {
+		// The registration belongs to other sessions only.
+		return false, fmt.Errorf("session %v is not a callee of registration %v", callee, regID)
 	}
 
 	// If no more callees for this registration, then delete the registration
